@@ -265,7 +265,7 @@ def c14f(ctx, tu):
         n += 1
         refs = [i for i, p in enumerate(fn.rec["params"]) if p["t"].endswith("&")]
         susp = cfg.find_events(fn, lambda e: e["e"] in ("co_yield", "co_await") and not e.get("implicit"))
-        bad = []
+        used = {}
         for sb, si, se in susp:
             after = cfg.reach(fn, sb)
             for bid in after:
@@ -274,14 +274,19 @@ def c14f(ctx, tu):
                         # in a loop the same block is reached again after the suspension
                         if sb not in set(s for x in cfg.reach(fn, sb) for s in cfg.succs(fn, x)):
                             continue
-                    if e["e"] in ("call", "co_yield", "co_return") and any(("['param', %d," % i) in str(e.get("args")) + str(e.get("x"))
-                                                                           for i in refs):
-                        bad.append((e, fn.rec["params"][[i for i in refs if ("['param', %d," % i) in str(e.get("args")) + str(e.get("x"))][0]]["n"]))
-        # the defect belongs to whoever supplies the reference: when the coroutine is only the forwarding target of
-        # a plain (non-coroutine) member of the same class that passes its own parameter on, name that member
-        construct, pat = fn.qe, fn.pat
-        if bad:
-            cur, pi = fn, [i for i in refs if fn.rec["params"][i]["n"] == bad[0][1]][0]
+                    if e["e"] in ("call", "co_yield", "co_return"):
+                        txt = str(e.get("args")) + str(e.get("x"))
+                        for i in refs:
+                            if ("['param', %d," % i) in txt:
+                                used.setdefault(i, e)
+        # one obligation per reference parameter: a known finding about one parameter says nothing about another
+        for i0 in refs:
+            pname = fn.rec["params"][i0]["n"] or ("#%d" % i0)
+            bad = used.get(i0)
+            # the defect belongs to whoever supplies the reference: when the coroutine is only the forwarding target
+            # of a plain (non-coroutine) member of the same class that passes its own parameter on, name that member
+            construct, pat = fn.qe, fn.pat
+            cur, pi = fn, i0
             for _ in range(3):
                 ups = [(cf, e) for cf, b, e in tu.callers().get(cur.id, ()) if cf.is_lib and not cf.rec.get("coro")]
                 pats = set(cf.pat for cf, e in ups)
@@ -295,10 +300,12 @@ def c14f(ctx, tu):
                     break
                 cur, pi = cf, a[1]
                 construct, pat = cf.qe, cf.pat
-        ctx.ob("C14.f", construct, not bad, pattern=pat, unit=tu.name, inst=fn.q,
-               detail="" if not bad else "the coroutine %suses its reference parameter `%s` after a suspension point; for a "
-               "generator or a lazily started task the referenced object (the dispatch function's parameter tuple) is gone "
-               "by then (at %s)" % ("" if construct == fn.qe else fn.qe + " ", bad[0][1], short_loc(bad[0][0].get("loc", ""))))
+            ctx.ob("C14.f", "%s [reference parameter %s]" % (construct, pname), bad is None, pattern=pat, unit=tu.name,
+                   inst=fn.q,
+                   detail="" if bad is None else "the coroutine %suses its reference parameter `%s` after a suspension point; "
+                   "for a generator or a lazily started task the referenced object (a parameter or local of the dispatch "
+                   "function) is gone by then (at %s)" % ("" if construct == fn.qe else fn.qe + " ", pname,
+                                                          short_loc(bad.get("loc", ""))))
     c14f_args(ctx, tu)
     return n
 
@@ -507,6 +514,10 @@ def run(ctx):
             c14e(ctx, tu)
             n_shape += c14g(ctx, tu)
             c14h(ctx, tu)
+            # the sequence's list of handles is a borrowing list (C14.d): ~list must find it empty, so the
+            # destructor body has to unlink every handle, whatever its state (C06.b decides exactly that)
+            from rules import C06
+            C06.c06b(ctx, tu)
         n_coro += c14f(ctx, tu)
         units.append({"unit": tu.name, "functions": len(tu.fns)})
     ctx.floor("C14.a classified pointer-like members", len(seen), 25)
